@@ -34,9 +34,11 @@ __CPROVER_requires(__CPROVER_is_fresh(((search_module_t *)fsgs)->dict, sizeof(di
 __CPROVER_requires(verif_fl->from_state == verif_psrc)
 /* invariant carried through the lextree */
 __CPROVER_requires(HIST_SRC(pnode->hmm, verif_psrc))
+__CPROVER_requires(0 <= verif_dictwid && verif_dictwid < 8)   /* (ghost: last dictionary id looked up; keeps the clauses below well defined) */
 __CPROVER_assigns(verif_add_n, verif_add_link, verif_add_frame, verif_add_score, verif_add_pred, verif_add_lc, verif_add_rc, verif_dictwid)
 /* exactly one entry; it carries the leaf's grammar arc, the current frame, the exit score unchanged (C02: no weight
  * is added or dropped at a word exit), the exit back-pointer as predecessor (C03 telescoping), the word's last phone */
+__CPROVER_ensures(0 <= verif_dictwid && verif_dictwid < 8)
 __CPROVER_ensures(verif_add_n == __CPROVER_old(verif_add_n) + 1)
 __CPROVER_ensures(verif_add_link == verif_fl && verif_add_frame == fsgs->frame)
 __CPROVER_ensures(verif_add_score == pnode->hmm.out_score && verif_add_pred == pnode->hmm.out_history)
@@ -60,9 +62,10 @@ __CPROVER_requires(fsgs->frame >= 0 && fsgs->frame < 0x3fffffff)
 __CPROVER_requires(fsgs->bestscore <= 0 && fsgs->bestscore >= WORST_SCORE && fsgs->beam <= 0 && fsgs->beam >= WORST_SCORE)
 __CPROVER_requires(pnode->hmm.out_score <= 0 && pnode->hmm.out_score >= WORST_SCORE)
 __CPROVER_requires(HIST_SRC(pnode->hmm, verif_psrc) && HIST_SRC(verif_pcell.hmm, verif_psrc))
-__CPROVER_assigns(VERIF_PT_ASSIGNS)
+__CPROVER_assigns(VERIF_PT_ASSIGNS, verif_trans_calls)
+__CPROVER_ensures(verif_trans_calls == __CPROVER_old(verif_trans_calls) + 1)
 /* the invariant is kept by every child (the cell is arbitrary) and the parent is untouched */
-__CPROVER_ensures(HIST_SRC(verif_pcell.hmm, verif_psrc))
+__CPROVER_ensures(HIST_SRC(verif_pcell.hmm, verif_psrc) && PCELL_OK)
 __CPROVER_ensures(pnode->hmm.out_score == __CPROVER_old(pnode->hmm.out_score) && pnode->hmm.out_history == __CPROVER_old(pnode->hmm.out_history))
 ;
 void h_fsg_search_pnode_trans(void) { fsg_search_t *f; fsg_pnode_t *p; fsg_search_pnode_trans(f, p); VERIF_CANARY(); }
@@ -87,6 +90,28 @@ __CPROVER_assigns(VERIF_WT_ASSIGNS)
 __CPROVER_ensures(fsgs->bpidx_start == __CPROVER_old(fsgs->bpidx_start) && fsgs->frame == __CPROVER_old(fsgs->frame))
 ;
 void h_fsg_search_word_trans(void) { fsg_search_t *f; fsg_search_word_trans(f); VERIF_CANARY(); }
+
+/* ---- beam pruning and propagation of the active list: call sites of the two contracts above.  Every precondition of
+ * fsg_search_pnode_trans / fsg_search_pnode_exit (replaced by their contracts here) is proved at its call site from the
+ * invariant of the active list (ASSUMED for the list as handed in: nodes are active in this or the next frame, carry
+ * HIST_SRC, leaves carry their grammar arc), and the decision table of the pruning is proved per node. */
+static void fsg_search_hmm_prune_prop(fsg_search_t *fsgs)
+__CPROVER_requires(FSGS_FRESH(fsgs) && fsgs->pnode_active_next == NULL)
+__CPROVER_requires(__CPROVER_is_fresh(verif_fl, sizeof(fsg_link_t)) && verif_fl->wid >= 0 && verif_fl->wid < 8 && verif_fl->from_state == verif_psrc)
+__CPROVER_requires(__CPROVER_is_fresh(fsgs->fsg, sizeof(fsg_model_t)) && fsgs->fsg->n_word == 8 && __CPROVER_is_fresh(fsgs->fsg->vocab, 8 * sizeof(char *)))
+__CPROVER_requires(fsgs->fsg->vocab[verif_fl->wid] != NULL)
+__CPROVER_requires(fsgs->fsg->silwords == NULL || __CPROVER_is_fresh(fsgs->fsg->silwords, sizeof(bitvec_t)))
+__CPROVER_requires(__CPROVER_is_fresh(((search_module_t *)fsgs)->dict, sizeof(dict_t)) && __CPROVER_is_fresh(((search_module_t *)fsgs)->dict->word, 8 * sizeof(dictword_t)))
+__CPROVER_requires(fsgs->pnode_active == NULL || fsgs->pnode_active == &verif_gcell)
+__CPROVER_requires((verif_gcell.next == NULL || verif_gcell.next == &verif_gcell) && verif_gcell.data.ptr == (void *)&verif_ncell)
+__CPROVER_requires(fsgs->frame >= 0 && fsgs->frame < 0x3fffffff)
+__CPROVER_requires(fsgs->bestscore <= 0 && fsgs->bestscore >= WORST_SCORE && fsgs->beam <= 0 && fsgs->beam >= WORST_SCORE
+                   && fsgs->pbeam <= 0 && fsgs->pbeam >= WORST_SCORE && fsgs->wbeam <= 0 && fsgs->wbeam >= WORST_SCORE)
+__CPROVER_requires(NCELL_OK(fsgs) && PCELL_OK && HIST_SRC(verif_pcell.hmm, verif_psrc) && 0 <= verif_dictwid && verif_dictwid < 8)
+__CPROVER_assigns(VERIF_PP_ASSIGNS)
+__CPROVER_ensures(fsgs->frame == __CPROVER_old(fsgs->frame))
+;
+void h_fsg_search_hmm_prune_prop(void) { fsg_search_t *f; fsg_search_hmm_prune_prop(f); VERIF_CANARY(); }
 
 void ssw_keep_refs(void) { hmm_t h; hmm_enter(&h, 0, 0, 0); fsg_pnode_ctxt_t c; fsg_pnode_add_all_ctxt(&c); (void)dict_wordid(NULL, NULL); (void)glist_add_ptr(NULL, NULL); (void)fsg_history_n_entries(NULL); (void)fsg_history_entry_get(NULL, 0); }
 #endif
